@@ -12,7 +12,10 @@
 // harness: k_csi_scalar_70 props=C03,C20 kind=complete tier=quick timeout=900 obligation=Parser::csi_dispatch/E1(scalar,0x70-0x77)
 // harness: k_csi_scalar_78 props=C03,C20 kind=complete tier=quick timeout=900 obligation=Parser::csi_dispatch/E1(scalar,0x78-0x7e)
 // harness: k_csi_other props=C03,C20 kind=complete tier=quick timeout=900 obligation=Parser::csi_dispatch/E1(final outside 0x40-0x7e folded range)
-// harness: k_csi_modes props=C03 kind=bounded tier=quick timeout=900 obligation=Parser::csi_dispatch/E1(SM,RM,DECSET,DECRST) bound="cur_param <= 3 (4 parameters)"
+// harness: k_csi_modes_sm props=C03 kind=bounded tier=quick timeout=900 obligation=Parser::csi_dispatch/E1(SM) bound="3 parameters, values fully symbolic"
+// harness: k_csi_modes_rm props=C03 kind=bounded tier=quick timeout=900 obligation=Parser::csi_dispatch/E1(RM) bound="2 parameters, values fully symbolic"
+// harness: k_csi_modes_decset props=C03 kind=bounded tier=quick timeout=900 obligation=Parser::csi_dispatch/E1(DECSET) bound="3 parameters, values fully symbolic"
+// harness: k_csi_modes_decrst props=C03 kind=bounded tier=quick timeout=900 obligation=Parser::csi_dispatch/E1(DECRST) bound="2 parameters, values fully symbolic"
 // harness: k_sgr_step props=C03,C08 kind=bounded tier=quick timeout=900 obligation=SgrOps::next(one step) bound="<= 5 remaining parameters, each fully symbolic (6 parts)"
 // harness: k_sgr_list props=C03,C08 kind=bounded tier=thorough timeout=1800 obligation=Parser::csi_dispatch/E1(SGR) bound="cur_param <= 2"
 //
@@ -241,35 +244,65 @@ mod verif_kani_parser {
         }
     }
 
-    #[kani::proof]
-    #[kani::unwind(34)]
-    fn k_csi_modes() {
-        let mut p = any_parser(4);
-        let which: u8 = kani::any();
-        kani::assume(which < 4);
-        let cur = p.cur_param;
-        let vals = [p.params[0].parts[0], p.params[1].parts[0], p.params[2].parts[0], p.params[3].parts[0]];
+    /// [C03] SM / RM / DECSET / DECRST: the recognised modes among params[0..=cur], in order,
+    /// unrecognised values skipped wherever they stand (streaming comparison, no reference Vec)
+    fn modes_case(which: u8, cur: usize) {
+        let mut p = Parser::new();
+        p.cur_param = cur;
+        let mut k = 0;
+        while k <= cur {
+            p.params[k] = any_param();
+            k += 1;
+        }
+        p.state = State::Ground;
+        let vals = [p.params[0].parts[0], p.params[1].parts[0], p.params[2].parts[0]];
         let (inter, c) = match which { 0 => (None, 'h'), 1 => (None, 'l'), 2 => (Some('?'), 'h'), _ => (Some('?'), 'l') };
         p.intermediate = inter;
         let r = p.csi_dispatch(c);
-        // reference: the recognised modes among params[0..=cur], in order
-        let mut want_a: Vec<AnsiMode> = Vec::new();
-        let mut want_d: Vec<DecMode> = Vec::new();
-        let mut i = 0;
-        while i <= cur {
-            if let Some(m) = ref_ansi(vals[i]) { want_a.push(m); }
-            if let Some(m) = ref_dec(vals[i]) { want_d.push(m); }
-            i += 1;
-        }
-        match (which, r) {
-            (0, Some(Function::Sm(v))) => assert!(v == want_a),
-            (1, Some(Function::Rm(v))) => assert!(v == want_a),
-            (2, Some(Function::Decset(v))) => assert!(v == want_d),
-            (3, Some(Function::Decrst(v))) => assert!(v == want_d),
+        let kind: u8 = match &r { Some(Function::Sm(_)) => 0, Some(Function::Rm(_)) => 1, Some(Function::Decset(_)) => 2, Some(Function::Decrst(_)) => 3, _ => 9 };
+        assert!(kind == which);
+        match r {
+            Some(Function::Sm(v)) | Some(Function::Rm(v)) => {
+                let mut j = 0;
+                let mut i = 0;
+                while i <= cur {
+                    if let Some(m) = ref_ansi(vals[i]) {
+                        assert!(j < v.len() && v[j] == m);
+                        j += 1;
+                    }
+                    i += 1;
+                }
+                assert!(j == v.len());
+            }
+            Some(Function::Decset(v)) | Some(Function::Decrst(v)) => {
+                let mut j = 0;
+                let mut i = 0;
+                while i <= cur {
+                    if let Some(m) = ref_dec(vals[i]) {
+                        assert!(j < v.len() && v[j] == m);
+                        j += 1;
+                    }
+                    i += 1;
+                }
+                assert!(j == v.len());
+            }
             _ => assert!(false),
         }
-        kani::cover!(cur == 3);
+        kani::cover!(vals[0] == 9999 && vals[cur] == 1);
     }
+
+    #[kani::proof]
+    #[kani::unwind(34)]
+    fn k_csi_modes_sm() { modes_case(0, 2) }
+    #[kani::proof]
+    #[kani::unwind(34)]
+    fn k_csi_modes_rm() { modes_case(1, 1) }
+    #[kani::proof]
+    #[kani::unwind(34)]
+    fn k_csi_modes_decset() { modes_case(2, 2) }
+    #[kani::proof]
+    #[kani::unwind(34)]
+    fn k_csi_modes_decrst() { modes_case(3, 1) }
 
     /// reference decoder for one SGR step, written from the table of the property (C08):
     /// returns (operation or None for "skipped", parameters consumed)
